@@ -148,6 +148,9 @@ def run_module(path, obs, timeout, per_path_timeout=None, env=None):
         v = verdicts.get(fn_name(ob))
         if v is None:
             tail = (err.replace("PATH\n", "")[-600:] if err else "")
-            v = {"status": "crash", "raw": [f"no verdict (rc={rc})", tail]}
+            if rc == -9:
+                v = {"status": "timeout", "raw": [f"no verdict within the hard limit of {hard}s"]}
+            else:
+                v = {"status": "crash", "raw": [f"no verdict (rc={rc})", tail]}
         res[ob.name] = v
     return res, paths, wall
